@@ -46,7 +46,7 @@ sys.path.insert(0, C.VERIF)
 
 PID = "C07"
 META = {
-    "ready": False,
+    "ready": True,
     "category": "proof",
     "technique": "Lean 4: totality/range theorems of the reader (from C12), match-arm coverage and panic-site classification decided over tables regenerated from the Rust sources, and a model of the VM's error unwinding / build roll-back with clean-state theorems; plus an exploration of the real engine in crash-isolated child processes (texts: random, grammar-derived, mutated suite scripts; built-ins: every registered procedure on a pool of boundary values) whose oracle is the property itself",
     "level_text": "Proved (SteelVerif/C07/Props.lean): frontend_total/frontend_spans (reader total, spans in range; re-export of C12); arms_total/arms_total_unary (every pair / every numeric kind reaches a non-panicking arm in each numeric primitive, over tables regenerated from numbers.rs and rvals.rs); panic_sites_classified/reachable_sites_named (each of the ~300 extracted potential panic sites of the primitives is in the hand-reviewed table, reachable ones name their finding); for the model of SteelThread::execute: failed_run_leaves_clean_partial, handler_run_resumes_clean, run_never_panics, failed_forms_keep_completed, history_stays_clean (any fuel, any program, any history of failing and succeeding evaluations: both stacks empty afterwards, executed definitions kept, the pop_count == 0 early return is dead code), failed_build_is_noop_partial (parametric in a symbol map whose roll_back restores). FailedRunLeavesClean holds in full since the repair of K07a (a handler that is not a closure; found by this model, f4f0e66b); FailedBuildIsNoop is kept and refuted by a witness replayed on the engine (define-syntax of a failed program stays defined: K07z). The model is tied to the engine by generated programs on every run. The property as a whole is partial: panic-freedom of 100k lines of Rust is explored (oracle = the property), not proved; every open failure class is a KNOWN_FINDINGS entry.",
